@@ -406,9 +406,19 @@ def m_id(interp, args, kw):
     return id(args[0])
 
 
+def _np_cmp(op):
+    def m(interp, args, kw):
+        a, b = args
+        return interp.compare(op, a, b)
+    return m
+
+
 def build_models():
     m = Models()
     reg = m.register
+    for uf, op in ((np.greater, ast.Gt), (np.greater_equal, ast.GtE), (np.less, ast.Lt), (np.less_equal, ast.LtE),
+                   (np.equal, ast.Eq), (np.not_equal, ast.NotEq)):
+        reg(uf, _np_cmp(op))
     reg(builtins.abs, m_abs)
     reg(builtins.min, _minmax(True))
     reg(builtins.max, _minmax(False))
